@@ -88,12 +88,15 @@ theorem Core.inv {base : Image A} {nd : Node A} (h : Core base nd) : Inv nd.img 
 /-- Things that only grow. -/
 def Ext (nd nd' : Node A) : Prop :=
   (∀ x, x ∈ nd.img.stored → x ∈ nd'.img.stored) ∧ (∀ x, x ∈ keys nd.index → x ∈ keys nd'.index) ∧
-  (nd.img.marker ≠ none → nd'.img.marker ≠ none)
+  (nd.img.marker ≠ none → nd'.img.marker ≠ none) ∧
+  (∀ x, x ∈ keys nd.img.rows → x ∈ keys nd'.img.rows) ∧ nd.log <+: nd'.log
 
-theorem Ext.refl (nd : Node A) : Ext nd nd := ⟨fun _ h => h, fun _ h => h, fun h => h⟩
+theorem Ext.refl (nd : Node A) : Ext nd nd :=
+  ⟨fun _ h => h, fun _ h => h, fun h => h, fun _ h => h, List.prefix_refl _⟩
 
 theorem Ext.trans {a b c : Node A} (h1 : Ext a b) (h2 : Ext b c) : Ext a c :=
-  ⟨fun x h => h2.1 x (h1.1 x h), fun x h => h2.2.1 x (h1.2.1 x h), fun h => h2.2.2 (h1.2.2 h)⟩
+  ⟨fun x h => h2.1 x (h1.1 x h), fun x h => h2.2.1 x (h1.2.1 x h), fun h => h2.2.2.1 (h1.2.2.1 h),
+   fun x h => h2.2.2.2.1 x (h1.2.2.2.1 x h), List.IsPrefix.trans h1.2.2.2.2 h2.2.2.2.2⟩
 
 theorem core_step {base : Image A} {nd nd' : Node A} {c : Commit A} (h : Core base nd)
     (hs : Safe nd.img c)
@@ -115,10 +118,12 @@ theorem core_step {base : Image A} {nd nd' : Node A} {c : Commit A} (h : Core ba
               · left; rw [himg]; exact apply_rows_mono c h1
               · right; rw [hdirty]; exact h1
             dirty_idx := by rw [hidx, hdirty]; exact h.dirty_idx }
-  · refine ⟨?_, ?_, ?_⟩
+  · refine ⟨?_, ?_, ?_, ?_, ?_⟩
     · intro x hx; rw [himg]; exact apply_stored_mono c hx
     · intro x hx; rw [hidx]; exact hx
     · intro hm; rw [himg]; exact apply_marker_some c hm
+    · intro x hx; rw [himg]; exact apply_rows_mono c hx
+    · rw [hlog]; exact List.prefix_append _ _
 
 /-! ### flushDirty -/
 
@@ -151,7 +156,8 @@ theorem core_flushDirty {base : Image A} {nd : Node A} (h : Core base nd) :
                 rw [mem_keys_foldl_upsert, keys_dirty_rows]
                 exact h.idx_rows n hn
               dirty_idx := by intro n hn; simp [emit] at hn }
-    · exact ⟨fun x hx => hx, fun x hx => hx, fun hm => hm⟩
+    · exact ⟨fun x hx => hx, fun x hx => hx, fun hm => hm,
+        fun x hx => (mem_keys_foldl_upsert _ _ x).mpr (Or.inl hx), List.prefix_append _ _⟩
 
 theorem flushDirty_tip (nd : Node A) : (flushDirty nd).tip = nd.tip := by
   unfold flushDirty; split <;> rfl
@@ -182,7 +188,8 @@ theorem rows_of_flushed {base : Image A} {nd : Node A} (h : Core base nd) (hd : 
 theorem core_setStatus {base : Image A} {nd : Node A} (h : Core base nd) {a : Chain} (s : Status)
     (ha : a ∈ keys nd.index ∨ a.tail ∈ keys nd.index) :
     Core base (setStatus nd a s) ∧ Ext nd (setStatus nd a s) ∧ a ∈ keys (setStatus nd a s).index := by
-  refine ⟨?_, ⟨fun x hx => hx, fun x hx => mem_keys_upsert.mpr (Or.inr hx), fun hm => hm⟩,
+  refine ⟨?_, ⟨fun x hx => hx, fun x hx => mem_keys_upsert.mpr (Or.inr hx), fun hm => hm, fun x hx => hx,
+      List.prefix_refl _⟩,
     mem_keys_upsert.mpr (Or.inl rfl)⟩
   exact { img_eq := h.img_eq
           sound := h.sound
